@@ -160,6 +160,33 @@ func (g *Gen) oddSpellings(p *prng, name, base string) []string {
 	if m != nil {
 		nd := len(digitRun.FindAllString(m[2], -1))
 		out = append(out, m[1]+replaceNth(digitRun, m[2], p.n(nd), "18446744073709551617")+m[3])
+		// component-count ladder: a few more components than usual, around the
+		// capacities a parser might pre-size for (8, 16, 32)
+		if p.chance(1, 2) {
+			for c := 0; c < 3; c++ {
+				k := []int{1, 2, 3, 4, 5, 6, 7, 8, 9, 12, 13, 14, 15, 16, 29, 30, 31}[p.n(17)]
+				out = append(out, m[1]+m[2]+strings.Repeat([]string{".1", ".0", ".7"}[p.n(3)], k)+m[3])
+			}
+		}
+		// exact-length ladder for the suffix: pad it to lengths around powers of
+		// two, and add neighbours that differ only in the last byte
+		if suf != "" && p.chance(1, 2) {
+			target := []int{15, 16, 17, 31, 32, 33, 34, 63, 64, 65, 127, 128, 129}[p.n(13)]
+			padded := suf
+			for len(padded) < target {
+				padded += "." + []string{"a", "b7", "x", "0", "z9"}[p.n(5)]
+			}
+			if len(padded) > target && target > len(suf)+1 {
+				padded = padded[:target]
+				if c := padded[len(padded)-1]; c == '.' || c == '-' || c == '+' {
+					padded = padded[:len(padded)-1] + "k"
+				}
+			}
+			out = append(out, head+padded)
+			for _, c := range []byte{'1', '4', '8', 'c', 'm', 'y'} {
+				out = append(out, head+padded[:len(padded)-1]+string(c))
+			}
+		}
 		// very long inputs take their own paths (fixed-size buffers, length
 		// thresholds): a long numeric core and a long suffix
 		if p.chance(1, 3) {
@@ -376,10 +403,47 @@ func (g *Gen) versSynth(p *prng, name string, f *family) [][2]string {
 			schemes = append(schemes, s)
 		}
 	}
+	// a twin: the same constraints in another order (a cache that canonicalises
+	// its key by sorting must not change what the written order means), and a
+	// tie variant: one bound repeated with the neighbouring operator
+	texts := []string{text}
+	if len(parts) >= 2 && p.chance(1, 2) {
+		tw := append([]string(nil), parts...)
+		for i := len(tw) - 1; i > 0; i-- {
+			j := p.n(i + 1)
+			tw[i], tw[j] = tw[j], tw[i]
+		}
+		texts = append(texts, strings.Join(tw, "|"))
+	}
+	if p.chance(1, 3) {
+		i := p.n(len(parts))
+		tie := ""
+		switch {
+		case strings.HasPrefix(parts[i], ">="):
+			tie = ">" + parts[i][2:]
+		case strings.HasPrefix(parts[i], "<="):
+			tie = "<" + parts[i][2:]
+		case strings.HasPrefix(parts[i], ">"):
+			tie = ">=" + parts[i][1:]
+		case strings.HasPrefix(parts[i], "<"):
+			tie = "<=" + parts[i][1:]
+		}
+		if tie != "" {
+			a := append(append([]string(nil), parts...), tie)
+			b := append([]string{tie}, parts...)
+			texts = append(texts, strings.Join(a, "|"), strings.Join(b, "|"))
+		}
+	}
 	var out [][2]string
 	for _, s := range schemes {
-		for k := 0; k < 2; k++ {
-			out = append(out, [2]string{"vers:" + s + "/" + text, clean(pickS(p, f.vs))})
+		for _, tx := range texts {
+			for k := 0; k < 2; k++ {
+				probe := clean(pickS(p, f.vs))
+				if k == 1 && len(used) > 0 {
+					probe = used[p.n(len(used))] // exactly on a bound
+				}
+				out = append(out, [2]string{"vers:" + s + "/" + tx, probe})
+			}
 		}
 	}
 	return out
@@ -459,7 +523,8 @@ func hCRC32(s string) uint64 {
 	return uint64(^c)
 }
 
-var hashFns = []func(string) uint64{hFNV1a32, hFNV1a32, hFNV1a32, hFNV1a64, hFNV1a64, hFNV132, hDJB2, hJava, hSum, hCRC32}
+// hash/fnv is what Go code reaches for first; the others get a small share
+var hashFns = []func(string) uint64{hFNV1a32, hFNV1a32, hFNV1a32, hFNV1a64, hFNV1a64, hFNV1a64, hFNV1a64, hFNV132, hCRC32, hDJB2, hJava, hSum}
 
 // colliders returns up to n distinct valid texts (versions if ranges is false)
 // that share a bucket under a seeded choice of hash function and table size,
@@ -484,15 +549,24 @@ func (g *Gen) colliders(p *prng, name string, ranges bool, n int) []string {
 	// texts that collide under a 4096-entry mask collide under every smaller
 	// power-of-two table as well
 	mask := uint64(4096 - 1)
-	mod := p.chance(1, 6) // some tables use a prime-ish modulus instead of a mask
+	mod := p.chance(1, 8) // some tables use a prime-ish modulus instead of a mask
 	var m uint64 = mask + 1
 	if mod {
 		m = []uint64{31, 61, 127, 251, 509, 1021}[p.n(6)]
 	}
+	// how the table turns the hash into a slot: low bits, xor-folded halves,
+	// or (for modulus tables) the remainder
+	fold := []int{0, 0, 0, 1, 1, 2}[p.n(6)]
 	bucket := func(s string) uint64 {
 		x := h(strings.TrimSpace(s))
 		if mod {
 			return x % m
+		}
+		switch fold {
+		case 1:
+			x ^= x >> 32
+		case 2:
+			x ^= x >> 16
 		}
 		return x & mask
 	}
